@@ -9,7 +9,9 @@ one() { # <label> <patch> <check>
 }
 export -f one
 {
-  for d in seeded/*/; do id=$(basename $d); echo "$id /verif/$d/patch.diff ${id%%-*}"; done
+  # (seeded/<id>/sweep_check, if present, names the check to run instead of the property's own: C09-8 is seen by
+  #  C09's thorough tier only and by the quick tier of C05, which owns the broken fan-out)
+  for d in seeded/*/; do id=$(basename $d); chk=${id%%-*}; [ -f $d/sweep_check ] && chk=$(cat $d/sweep_check); echo "$id /verif/$d/patch.diff $chk"; done
   while read f id; do [ -n "$f" ] && echo "mutant:$f /verif/mutants/$f $id"; done <<'LIST'
 c15_shared_scratch_slice.diff C15
 c01_accept_nil_zero_entry.diff C01
